@@ -28,6 +28,12 @@ B0 == <<"bound",0>>
 vp == <<"var","p",SA>>          vq == <<"var","q",SA>>      \* variables of schematic type
 sQ2 == <<"svar","Q2",FunT(SA,BoolT)>>                       \* ?'a occurs only in the types of schematic variables
 AllEq == Forall(vp, Forall(vq, MkEq(vp, vq)))              \* "?'a has one element": true or false depending on the model
+\* two schematic variables of ONE NAME at two schematic types (an instantiation by name meets both), next to a variable of the second type
+SB == <<"stv","b">>
+sz2 == <<"svar","z",SB>>
+vr == <<"var","r",SB>>
+vW == <<"var","W",FunT(SA,FunT(SB,BoolT))>>
+Wzr == App(App(vW, sz), vr)
 
 TermsA == {vx, vy, sx, App(vf, vx), App(vf, sx)}
 Atoms == {vA, vB, sP, sQ, App(vR, vx), App(vR, sx), App(sR, vx), MkEq(vx, vy), MkEq(sx, vx), xb}
@@ -39,7 +45,7 @@ Redexes == { App(Lambda(vx, b), a) : b \in {App(vR, vx), App(vf, vx), vy}, a \in
 \* adversarial arguments: ill-typed applications, loose bound variables, non-boolean "propositions"
 Adversarial == { App(vA, vx), App(vR, vA), App(vf, vA), B0, App(vR, B0), vx, vf,
                  <<"abs", TA, <<"bound", 1>> >>, App(Lambda(vx, App(vR, vx)), vA) }
-AssumePool == IF Focus THEN {AllEq, sP, MkEq(sz, sz), App(sQ2, sz)} ELSE
+AssumePool == IF Focus THEN {AllEq, sP, MkEq(sz, sz), App(sQ2, sz), Wzr} ELSE
    Props1 \cup Adversarial
 ReflPool == IF Focus THEN {sz} ELSE
    TermsA \cup {vA, sP, vf, vR, Lambda(vx, App(vR, vx))} \cup Redexes \cup Adversarial
@@ -76,7 +82,7 @@ Attempts(S) ==
   \cup { Att("reflexive", ArgT(a), <<>>, Chk(Reflexive(a))) : a \in ReflPool }
   \cup { Att("beta_conv", ArgT(a), <<>>, IF WT(a) THEN Chk(BetaConvR(a)) ELSE ErrS) : a \in BetaPool }
   \cup UNION { { Att("implies_intr", ArgT(a), <<th>>, IF WT(a) THEN Chk(ImpliesIntr(a, th)) ELSE ErrS)
-                   : a \in th.h \cup {vA, sP, App(vR, vx), App(vA, vx), MkEq(sz, sz)} } : th \in S }
+                   : a \in th.h \cup {vA, sP, App(vR, vx), App(vA, vx), MkEq(sz, sz)} \cup (IF Focus THEN {MkEq(sz2, sz2)} ELSE {}) } : th \in S }
   \cup { Att("symmetric", ArgT(NoArg), <<th>>, Chk(Symmetric(th))) : th \in S }
   \cup UNION { { Att("abstraction", ArgT(v), <<th>>, Chk(Abstraction(v, th))) : v \in VarPool } : th \in S }
   \cup UNION { { Att("forall_intr", ArgT(v), <<th>>, Chk(ForallIntr(v, th))) : v \in VarPool } : th \in S }
